@@ -59,7 +59,7 @@ def stepOk (st : St) (op : List String) : St × List String :=
     (st', lines st')
   | "purchased" :: n :: rest =>
     let old := getCh st n
-    let ch : Chain := { purchased := true, startedAt := st.now, len := if kvGet rest "len" = "" then old.len else parseInt (kvGet rest "len"),
+    let ch : Chain := { purchased := true, startedAt := st.now + parseInt (kvGet rest "ahead"), len := if kvGet rest "len" = "" then old.len else parseInt (kvGet rest "len"),
                         speed := if kvGet rest "hr" = "" then old.speed else parseInt (kvGet rest "hr"), payload := payloadOf (kvGet rest "payload") }
     let st1 := settleAll (setCh st n ch)
     let st2 := updCtl st1 n fun c => onPurchased c ch st.now
